@@ -15,7 +15,11 @@ import (
 	vs "github.com/modelcontextprotocol/go-sdk/internal/vsched"
 )
 
-func c08Race(version string) vs.Verdict {
+// c08Race: closeStream=false: a server write races a resuming GET on a detached stream;
+// closeStream=true: the handler closes its own SSE stream (RequestExtra.CloseSSEStream) while the
+// client, which still holds the POST exchange, already resumes - the resume is either refused (409,
+// the stream is still claimed) or served, and a served resume must receive everything written later.
+func c08Race(version string, closeStream bool) vs.Verdict {
 	f := &e1Fail{prefix: "c08 race"}
 	ctx := context.Background()
 	vs.Quiet(true)
@@ -27,6 +31,13 @@ func c08Race(version string) vs.Verdict {
 		for cmd := range cmds {
 			if cmd == "respond" {
 				break
+			}
+			if cmd == "closestream" {
+				if r.Extra != nil && r.Extra.CloseSSEStream != nil {
+					r.Extra.CloseSSEStream(CloseSSEStreamArgs{})
+				}
+				vs.Event("stream closed by the handler")
+				continue
 			}
 			n++
 			r.Session.NotifyProgress(ctx, &ProgressNotificationParams{ProgressToken: "tok", Progress: float64(n), Message: fmt.Sprintf("note %d", n)})
@@ -72,9 +83,11 @@ func c08Race(version string) vs.Verdict {
 	})
 	cmds <- "notify"
 	vs.WaitIdle()
-	cut()
-	<-pdone
-	vs.WaitIdle()
+	if !closeStream {
+		cut()
+		<-pdone
+		vs.WaitIdle()
+	}
 	key := ""
 	for k := range store.appended {
 		if !before[k] && !strings.HasSuffix(k, "|") {
@@ -98,12 +111,19 @@ func c08Race(version string) vs.Verdict {
 		close(gdone)
 	})
 	vs.Go(func() {
-		cmds <- "notify"
+		if closeStream {
+			cmds <- "closestream"
+		} else {
+			cmds <- "notify"
+		}
 		close(wdone)
 	})
 	<-wdone
 	vs.WaitIdle()
 	vs.Quiet(true)
+	if closeStream {
+		<-pdone // the POST exchange ends once the handler closed the stream
+	}
 	// one more live message and the response, then everything ends
 	cmds <- "notify"
 	vs.WaitIdle()
@@ -111,6 +131,21 @@ func c08Race(version string) vs.Verdict {
 	vs.WaitIdle()
 	gcancel()
 	<-gdone
+	if closeStream && recG.Code == http.StatusConflict {
+		// the racing resume was refused because the stream was still claimed: the client retries
+		vs.Event("racing resume refused with 409")
+		recG = httptest.NewRecorder()
+		g2ctx, g2cancel := context.WithCancel(ctx)
+		g2done := make(chan struct{})
+		vs.Go(func() {
+			do(g2ctx, "GET", sid, formatEventID(streamID, resumeFrom), "", recG)
+			close(g2done)
+		})
+		vs.WaitIdle()
+		g2cancel()
+		<-g2done
+	}
+	cut()
 	for ss := range s.Sessions() {
 		ss.Close()
 	}
@@ -153,7 +188,9 @@ func c08Race(version string) vs.Verdict {
 func TestVerifC08Race(t *testing.T) {
 	env := verifx.LoadEnv("C08")
 	env.Run([]*verifx.Scenario{
-		vs.E1(t, "race/write-vs-resume/2025-06-18", env.Pick(2, 3), vs.Options{}, func() vs.Verdict { return c08Race("2025-06-18") }),
-		vs.E1(t, "race/write-vs-resume/2025-11-25", env.Pick(2, 3), vs.Options{}, func() vs.Verdict { return c08Race("2025-11-25") }),
+		vs.E1(t, "race/write-vs-resume/2025-06-18", env.Pick(2, 3), vs.Options{}, func() vs.Verdict { return c08Race("2025-06-18", false) }),
+		vs.E1(t, "race/write-vs-resume/2025-11-25", env.Pick(2, 3), vs.Options{}, func() vs.Verdict { return c08Race("2025-11-25", false) }),
+		vs.E1(t, "race/handler-closes-stream-vs-resume/2025-06-18", env.Pick(2, 3), vs.Options{}, func() vs.Verdict { return c08Race("2025-06-18", true) }),
+		vs.E1(t, "race/handler-closes-stream-vs-resume/2025-11-25", env.Pick(2, 3), vs.Options{}, func() vs.Verdict { return c08Race("2025-11-25", true) }),
 	})
 }
